@@ -30,12 +30,18 @@ impl RecTracer {
     }
     fn push(&self, s: String) {
         let mut g = self.log.lock().unwrap_or_else(|e| e.into_inner());
-        // a document that never finishes its macrostep would fill the memory
-        if g.len() < 400_000 {
-            g.push(s);
+        // A document that never finishes its macrostep would spin for ever and fill the memory:
+        // at the cap the recording tracer ends the session thread (the families ask the model first
+        // and skip such documents; a session that gets here is reported as died / diverged).
+        if g.len() >= LOG_CAP {
+            drop(g);
+            panic!("recording tracer: log cap reached (the session does not leave its macrostep)");
         }
+        g.push(s);
     }
 }
+
+pub const LOG_CAP: usize = 150_000;
 
 impl Tracer for RecTracer {
     fn trace(&self, msg: &str) {
